@@ -45,6 +45,7 @@ type progOpts struct {
 	NoContext           bool `json:"noctx"`
 	File                bool `json:"file"`   // load the source from a file named "c" (LoadFile) instead of from a string
 	Thread              bool `json:"thread"` // run the program in a state made by NewThread, the context attached to THAT state
+	Fresh               bool `json:"fresh"`  // no library is opened: running the program is the very first call on the state
 }
 
 type progIn struct {
@@ -338,6 +339,7 @@ func runProgram(p progIn) (res progOut) {
 		opts.RegistryMaxSize = p.Opts.RegistryMaxSize
 		opts.RegistryGrowStep = p.Opts.RegistryGrowStep
 		opts.MinimizeStackMemory = p.Opts.MinimizeStackMemory
+		opts.SkipOpenLibs = p.Opts.Fresh
 	}
 	L := lua.NewState(opts)
 	defer L.Close()
